@@ -175,6 +175,12 @@ def run_job(job):
                 if (n_unknown <= MAX_PHASE2_PER_JOB or SAFE_MODE[0]) and getattr(ob, 'smt2', None):
                     d['_smt2'], d['_budget'] = ob.smt2, ob.budget
             res['obligations'].append(d)
+        if getattr(ex, 'drift', None):
+            if any(o['status'] == 'refuted' for o in res['obligations']):
+                res['notes'] = list(res['notes']) + ['contract drift (%s); the refuted obligations come from the code that was executed' % ex.drift]
+            else:
+                res['status'], res['error'] = 'drift', ex.drift
+                res['obligations'] = []
     except OutOfSubset as e:
         res['status'], res['error'] = 'out-of-subset', str(e)
     except ContractDrift as e:
